@@ -78,6 +78,11 @@ def jobs(tier, seed):
         out.append(_j('stud-short-bring-in', C.stud(stacks, antes=2, bring_in=1, game='FixedLimitSevenCardStud'),
                       dev_bound=3))
         out.append(_j('badugi', C.fl(stacks, game='FixedLimitBadugi'), dev_bound=3 if not th else 4))
+    for stacks in [(2, 9), (9, 2), (2, 2), (2, 9, 9), (9, 2, 9), (9, 9, 2), (2, 2, 2), (3, 2, 9), (5, 3, 2)]:
+        for game in ('FixedLimitSevenCardStud', 'FixedLimitRazz'):
+            out.append(_j('stud-partial-bring-in', C.stud(stacks, game=game, antes=1, bring_in=2, small=4, big=8), dev_bound=3))
+    for stacks in []:
+        pass
         out.append(_j('ND27', C.nt(stacks, game='NoLimitDeuceToSevenLowballSingleDraw'), dev_bound=3))
     for j in out:
         j.setdefault('state_cap', 500000 if th else 40000)
